@@ -374,6 +374,16 @@ func ParseRealtime(content []byte, opts *ParseRealtimeOptions) (*Realtime, error
 		}
 		result.Vehicles = append(result.Vehicles, *vehicle)
 	}
+	sort.Slice(result.Vehicles, func(i, j int) bool {
+		a, b := result.Vehicles[i].ID, result.Vehicles[j].ID
+		if a.ID != b.ID {
+			return a.ID < b.ID
+		}
+		if a.Label != b.Label {
+			return a.Label < b.Label
+		}
+		return a.LicensePlate < b.LicensePlate
+	})
 	result.Vehicles = append(result.Vehicles, vehiclesWithNoID...)
 	return &result, nil
 }
